@@ -180,7 +180,10 @@ def bounded_span_shapes(ctx, b):
               (f'upper<span {I}><br/></span>lower', ["upper", "lower"]),
               (f'100<span {B}>&#160;</span>km and so on', ["100 km and so on"]),
               (f'plain<br/><span {I}>styled</span><br/>', ["plain", "styled"]),
-              (f'<span {I}><span {B}>both<br/></span></span>after', ["both", "after"])]
+              (f'<span {I}><span {B}>both<br/></span></span>after', ["both", "after"]),
+              # one sentence wrapped over fourteen source lines, one word each (and one wrapped inside a styled span)
+              ("\n        ".join("we are going to need a much bigger boat than this one chief said".split()), ["we are going to need a much bigger boat than this one chief said"]),
+              (f'<span {I}>' + "\n   ".join("one two three four five six seven eight nine ten eleven twelve".split()) + '</span>', ["one two three four five six seven eight nine ten eleven twelve"])]
     for k, (body, lines) in enumerate(shapes):
         dfxp = ('<tt xmlns="http://www.w3.org/ns/ttml" xmlns:tts="http://www.w3.org/ns/ttml#styling" xml:lang="en"><body><div>'
                 f'<p begin="1s" end="2s">before</p><p begin="3s" end="4s">{body}</p><p begin="5s" end="6s">after</p></div></body></tt>')
